@@ -73,8 +73,11 @@ def gen_plan(seed: int, tier: str) -> dict:
         if mode == "global":
             req["global"] = r.choice(CODES + [-70499])
             req["global_keep"] = r.randrange(0, n + 1)
-            req["global_form"] = r.choice(["list", "list", "nolist"]) if req["global_keep"] == 0 else "list"
+            req["global_form"] = r.choice(["list", "list", "nolist", "empty", "empty_nolength"]) if req["global_keep"] == 0 else "list"
             req["global_http"] = r.choice([207, 207, 500, 503])
+            if req["global_form"].startswith("empty"):
+                # the whole write refused with a bare error reply: 5xx (or 4xx) status line, no body at all
+                req["global_http"] = r.choice([500, 503, 500, 507, 400, 422])
         if kind == "put":
             req["values"] = [r.choice([True, False, 0, 1, 55, "s"]) for _ in ids]
         reqs.append(req)
@@ -148,6 +151,9 @@ def execute_ip(plan: dict, ch: Chooser) -> dict:
                     sent["mentioned"] = set(sent["eff"])
                     for e in keep:
                         e.setdefault("status", 0)
+                    if kind == "put" and req.get("global_form", "").startswith("empty"):
+                        del sent["global"]  # no status is conveyed at all; the write must still not be presented as done
+                        return (req["global_http"], None if req["global_form"] == "empty" else "nolength")
                     if kind == "put" and req.get("global_form") == "nolist":
                         return (req.get("global_http", 207), {"status": req["global"]})
                     return (req.get("global_http", 207) if kind == "put" else 207, {"status": req["global"], "characteristics": keep})
@@ -182,6 +188,9 @@ def execute_ip(plan: dict, ch: Chooser) -> dict:
                         # listener was told of a value the accessory did not accept
                         ctx.probe("put_failed_as_a_whole")
                         ctx.event("req", idx, "put failed as a whole", type(e).__name__)
+                        # the library may have abandoned the connection (an unparseable reply): let it reconnect before the next
+                        # request - what happens on a dropped connection is C08/C10's subject, not this property's
+                        await asyncio.sleep(5.0)
                         continue
                 ctx.violate(f"{kind}-raises", f"ip/{type(e).__name__}/{garb}", f"ip {kind} {ids} with statuses {req['status']} garble={req['garble']} raised {e!r}")
                 ctx.event("req", idx, "raised", type(e).__name__)
